@@ -176,6 +176,19 @@ MESHES = {
               [[0, 1, 6, 5], [1, 2, 7, 6], [2, 3, 8, 7], [3, 4, 9], [3, 9, 8]]),
     # strip of four quads: as many faces as nodes per face (a square connectivity table)
     'qqqq': ([(i, 0) for i in range(5)] + [(i, 1) for i in range(5)], [[i, i + 1, i + 6, i + 5] for i in range(4)]),
+    # five separate faces with 3, 4, 5, 6 and 7 nodes (regular polygons side by side)
+    'poly34567': (lambda: (lambda rings: ([p for r in rings for p in r],
+                                          [list(range(sum(len(q) for q in rings[:k]), sum(len(q) for q in rings[:k]) + len(r))) for k, r in enumerate(rings)]))(
+        [[(round(3.0 * k + __import__('math').cos(2 * __import__('math').pi * a / n), 6), round(__import__('math').sin(2 * __import__('math').pi * a / n), 6))
+          for a in range(n)] for k, n in enumerate((3, 4, 5, 6, 7))]))(),
+    # a strip of 1,100 quads (more than 1,024 faces, nodes and edges)
+    'strip1100': ([(i, 0) for i in range(1101)] + [(i, 1) for i in range(1101)], [[i, i + 1, i + 1102, i + 1101] for i in range(1100)]),
+    # a closed fan of nine triangles around one node (a node shared by nine faces), and a face with nine nodes next to it
+    'fan9': ([(0.0, 0.0)] + [(round(__import__('math').cos(2 * __import__('math').pi * a / 9), 6), round(__import__('math').sin(2 * __import__('math').pi * a / 9), 6)) for a in range(9)],
+             [[0, 1 + a, 1 + (a + 1) % 9] for a in range(9)]),
+    'nonagon': ([(round(__import__('math').cos(2 * __import__('math').pi * a / 9), 6), round(__import__('math').sin(2 * __import__('math').pi * a / 9), 6)) for a in range(9)] +
+                [(2.0, 0.0), (2.0, 1.0)] + [(round(5 + __import__('math').cos(2 * __import__('math').pi * a / 12), 6), round(__import__('math').sin(2 * __import__('math').pi * a / 12), 6)) for a in range(12)],
+                [list(range(9)), [0, 9, 10], list(range(11, 23))]),
     # 4 x 4 block of quads: 25 nodes (node numbers squared no longer fit in small integer types), 40 edges
     'grid4': ([(i, j) for j in range(5) for i in range(5)],
               [[j * 5 + i, j * 5 + i + 1, (j + 1) * 5 + i + 1, (j + 1) * 5 + i] for j in range(4) for i in range(4)]),
